@@ -8,6 +8,11 @@ pub enum ValidationWarning {
     StringIsTooLong(usize),
     StringContainsParenthesis,
     StringContainsNonstandardAsciiCharacter(char),
+    /// The header has more than 256 words.
+    ///
+    /// A property list file names header words with a one-byte index (`HEADER D 18` to `HEADER D 255`),
+    /// so the words after index 255 cannot be converted. The payload is the number of header words.
+    HeaderIsTooLong(usize),
     ParameterIsTooBig(usize),
     /// Unusual number of parameters.
     ///
@@ -48,6 +53,10 @@ impl ValidationWarning {
             StringIsTooLong(_) => "Bad TFM file: String is too long; I've shortened it drastically.".to_string(),
             StringContainsParenthesis => "Bad TFM file: Parenthesis in string has been changed to slash.".to_string(),
             StringContainsNonstandardAsciiCharacter(_) => "Bad TFM file: Nonstandard ASCII code has been blotted out.".to_string(),
+            HeaderIsTooLong(n) => format![
+                "The header has {} words; header words after index 255 cannot be written to a property list\nand have been dropped.",
+                n
+            ],
             ParameterIsTooBig(i) => format![
                 "Bad TFM file: Parameter {} is too big;\nI have set it to zero.",
                 i
@@ -107,6 +116,7 @@ impl ValidationWarning {
             StringIsTooLong(_)
             | StringContainsParenthesis
             | StringContainsNonstandardAsciiCharacter(_) => 52,
+            HeaderIsTooLong(_) => 57,
             ParameterIsTooBig(_) => 60,
             UnusualNumberOfParameters { .. } => 59,
             InvalidCharacterInExtensibleRecipe(_) => 87,
@@ -138,6 +148,7 @@ impl ValidationWarning {
             | StringIsTooLong(_)
             | StringContainsParenthesis
             | StringContainsNonstandardAsciiCharacter(_)
+            | HeaderIsTooLong(_)
             | ParameterIsTooBig(_) => true,
             UnusualNumberOfParameters { .. } => false,
             InvalidCharacterInExtensibleRecipe(_)
@@ -179,6 +190,14 @@ pub fn validate_and_fix(file: &mut File) -> Vec<ValidationWarning> {
         warnings.push(ValidationWarning::DesignSizeIsTooSmall);
         file.header.design_size = FixWord::ONE * 10;
         file.header.design_size_valid = false;
+    }
+
+    // Header words are written as (HEADER D 18 ..) to (HEADER D 255 ..)
+    if file.header.additional_data.len() > 256 - 18 {
+        warnings.push(ValidationWarning::HeaderIsTooLong(
+            18 + file.header.additional_data.len(),
+        ));
+        file.header.additional_data.truncate(256 - 18);
     }
 
     for (i, elem) in file.params.iter_mut().enumerate() {
